@@ -41,7 +41,12 @@ def check(rep, tier, seed):
         add(recs, True, note="strict")
         for i in range(len(recs)):
             r2 = [list(r) for r in recs]
-            r2[i][selcol] = rng.choice(["0", "1", "0/1/1", "."[:0] + "0|1|1"])
+            # the non-diploid genotype in ANY selected column; the other selected columns keep whatever they hold
+            # (called, missing, multiallelic): the error must win wherever it stands
+            fcol = cols.index(rng.choice(selected))
+            r2[i][fcol] = rng.choice(["0", "1", "0/1/1", "0|1|1"])
+            if len(selected) > 1 and rng.random() < 0.5:
+                r2[i][cols.index(selected[0])] = rng.choice(["./.", "1/2"]) if cols.index(selected[0]) != fcol else r2[i][fcol]
             add(r2, False, note="ploidy@%d" % i)
             add(recs, False, raw={i: "chr1\tnot-a-position\t.\tA\tC\t.\t.\t.\tGT" + "\t0/0" * len(cols)}, note="corrupt@%d" % i)
             r3 = [list(r) for r in recs]
